@@ -57,10 +57,17 @@ Init == /\ cwd \in Cwds /\ entry \in Files
         /\ chain = <<>> /\ fault = "none" /\ stage = "open"
 
 Cur == IF chain = <<>> THEN entry ELSE chain[Len(chain)].file
+\* the working directory now, and the one a chdir moves to (a different directory of the world, or one outside it)
+Wd == IF chain = <<>> THEN cwd ELSE chain[Len(chain)].at
+AltCwd(c) == IF c = <<"r">> THEN <<"w">> ELSE <<"r">>
 Follow == /\ stage = "open" /\ Len(chain) < MaxHops
           /\ \E t \in Files \ {Cur}, st \in {"abs", "dot", "plain"} :
                 /\ st \in Styles(DirOf(Cur), t)
-                /\ chain' = Append(chain, [file |-> t, sp |-> Spell(DirOf(Cur), t, st)])
+                \* the process may change its working directory between two hops (a HISTORY: open, chdir, follow):
+                \* `at' is the working directory in effect when this hop is followed - Target() does not mention it
+                /\ \E mv \in BOOLEAN :
+                     chain' = Append(chain, [file |-> t, sp |-> Spell(DirOf(Cur), t, st),
+                                             at |-> IF mv THEN AltCwd(Wd) ELSE Wd])
           /\ UNCHANGED <<cwd, entry, entrySp, fault, stage>>
 Fail == /\ stage = "open" /\ Len(chain) < MaxHops
         /\ \E f \in Faults \ {"none"} : fault' = f
